@@ -274,7 +274,7 @@ theorem regReadF_iff (cx : Ctx F E) (hnf : NoFormulaNodes cx) (d : Nat) (n : Nod
         by_cases hbl : bs'.length = bufLen
         · simp only [hbl, if_true, Option.some.injEq] at hlen
           subst hlen
-          simp only [regBytes, Option.bind_eq_some_iff] at hb
+          simp only [regBytes, Option.bind_eq_some_iff, effectiveAddrs_eq] at hb
           obtain ⟨l, hl, a, ha, h⟩ := hb
           by_cases hl0 : 0 ≤ l
           · simp only [hl0, if_true] at h
